@@ -32,6 +32,7 @@ def run_property(pid, tier, seed, root=None, write_evidence=True):
     ]
     ctx = {"tier": tier, "seed": seed, "root": root or build.REPO, "facts": f}
     mod.run(ck, prog, ctx)
+    core.apply_private_deps(ck, prog)
     import selftest
     ck.rule("SELFTEST", "every engine primitive fires on its seeded bad instance in /verif/fixtures (DESIGN 2.4)")
     selftest.attach(ck)
